@@ -136,19 +136,19 @@ def memSim (c : MemCfg) : Sim (memImpl c) where
   put := fun k v h => rbM_put k v h
   del := fun k h => rbM_del k h
   delRange := fun s e hd h => rbM_delRange s e hd h
-  get := fun k h => by
+  get := fun k _ h => by
     show RGet.ofOption (MBatch.get _ _ k) = RGet.ofOption _
     rw [rbM_get k h]
-  has := fun k h => by
+  has := fun k _ h => by
     show ROut.bool (MBatch.get _ _ k).isSome = ROut.bool _
     rw [rbM_get k h]
-  view := fun {d mb sb} h => by
+  view := fun {d mb sb} _ h => by
     show (Sum.inr (MBatch.flush d mb) : Sum ROut KV) = Sum.inr (applyLog d sb.log)
     rw [rbM_flush h d, h.2.2.2.1 d rfl]
-  flush := fun {i d mb sb} h => by
+  flush := fun {i d mb sb} _ h => by
     show MBatch.flush d mb = applyLog d sb.log
     rw [rbM_flush h d, h.2.2.2.1 d rfl]
-  size := fun h hn => h.2.2.2.2 hn
+  size := fun _ _ h hn => h.2.2.2.2 hn
   rebase := fun od' h hag => ⟨h.1, h.2.1, h.2.2.1, fun d hd => by
     have := hag rfl d hd
     simpa [batchAgrees] using this, h.2.2.2.2⟩
@@ -178,20 +178,20 @@ def pebSim : Sim pebImpl where
   put := fun k v h => ⟨by simp [pebImpl, specImpl, h.1], h.2.1, by simp [pebImpl, specImpl, h.2.2]⟩
   del := fun k h => ⟨by simp [pebImpl, specImpl, h.1], h.2.1, by simp [pebImpl, specImpl, h.2.2]⟩
   delRange := fun s e _ h => ⟨by simp [pebImpl, specImpl, h.1], h.2.1, by simp [pebImpl, specImpl, h.2.2]⟩
-  get := fun {d pb sb} k h => by
+  get := fun {d pb sb} k _ h => by
     show pebGet (EBatch.get d pb.batch k) = RGet.ofOption ((applyLog d sb.log).get k)
     simp only [EBatch.get, h.2.1, if_true, h.1, pebGet_engineGet]
-  has := fun {d pb sb} k h => by
+  has := fun {d pb sb} k _ h => by
     show pebHas (EBatch.get d pb.batch k) = ROut.bool ((applyLog d sb.log).get k).isSome
     simp only [EBatch.get, h.2.1, if_true, h.1, pebHas_engineGet]
-  view := fun {d pb sb} h => by
+  view := fun {d pb sb} _ h => by
     show (if pb.batch.indexed = true then Sum.inr (applyLog d pb.batch.log) else Sum.inl ROut.errNotIndexed) =
       (Sum.inr (applyLog d sb.log) : Sum ROut KV)
     simp [h.2.1, h.1]
-  flush := fun {i d pb sb} h => by
+  flush := fun {i d pb sb} _ h => by
     show applyLog d pb.batch.log = applyLog d sb.log
     rw [h.1]
-  size := fun h _ => h.2.2
+  size := fun _ _ h _ => h.2.2
   rebase := fun _ h _ => h
   dget := fun d k => pebGet_engineGet d k
   dhas := fun d k => pebHas_engineGet d k
